@@ -7,9 +7,14 @@ CONSTANTS
   ModuleBody <- cBody
   OpTheories <- cTheories
   OpModules <- cModules
+  Present0 <- cTheories
+  Items0 <- cItems0
+  LimitsOf <- cLimits
+  FileOps = {}
+  Variants <- cVariants
+  GoodVariants <- Fixed
   MaxOps = 2
-  RestoreThy = FALSE
-  TimestampLast = FALSE
+  MaxDepth = 40
   AllowFault = TRUE
   defaultInitValue = defaultInitValue
 INVARIANT Good
